@@ -798,10 +798,16 @@ func (config *Config) resolve() (changedFields set.Set[string], err error) {
 	// expected and "raw" parameters, which may be used by plugins.
 	nameToSource := make(map[string]Source)
 	for _, source := range SourcesInDescendingOrder {
+		// Visit the keys in a fixed order and let only the first key for a parameter count: a source
+		// (e.g. a config file) may name one parameter twice with different capitalisation, and the
+		// outcome must not depend on map iteration order.
+		rawConfig := config.sourceToRawConfig[source]
+		rawNames := slices.Sorted(maps.Keys(rawConfig))
 	valueLoop:
-		for rawName, rawValue := range config.sourceToRawConfig[source] {
+		for _, rawName := range rawNames {
+			rawValue := rawConfig[rawName]
 			lowerCaseName := strings.ToLower(rawName)
-			currentSource := nameToSource[lowerCaseName]
+			currentSource, alreadySet := nameToSource[lowerCaseName]
 			param, ok := knownParams[lowerCaseName]
 			if !ok {
 				if source >= currentSource {
@@ -823,7 +829,7 @@ func (config *Config) resolve() (changedFields set.Set[string], err error) {
 				continue valueLoop
 			}
 
-			if source < currentSource {
+			if alreadySet && source <= currentSource {
 				log.Infof("Skipping config value for %v from %v; "+
 					"already have a value from %v", name,
 					source, currentSource)
